@@ -68,3 +68,6 @@ Example C29_reset_refusals :
   reset 1 Keep None c29_state = (Some ELocalChanges, c29_state) /\
   reset 9 Hard None c29_state = (Some EObjectNotFound, c29_state).
 Proof. vm_compute. repeat split. Qed.
+
+(* Restore, Add, Commit, Merge, Pull and the injected-fault statements live in Properties/C29Ops.v *)
+From GoGit Require Export Properties.C29Ops.
